@@ -11,7 +11,11 @@ pub mod c07;
 pub mod c08;
 pub mod c11;
 pub mod c12;
+pub mod c13;
+pub mod c14;
+pub mod c15;
 pub mod c16;
+pub mod c17;
 pub mod c19;
 pub mod c20;
 pub mod c18;
@@ -29,7 +33,11 @@ pub fn all() -> Vec<Box<dyn Check>> {
         Box::new(c08::C08),
         Box::new(c11::C11),
         Box::new(c12::C12),
+        Box::new(c13::C13),
+        Box::new(c14::C14),
+        Box::new(c15::C15),
         Box::new(c16::C16),
+        Box::new(c17::C17),
         Box::new(c19::C19),
         Box::new(c20::C20),
     ]
